@@ -1,13 +1,21 @@
 ----------------------------- MODULE MCPeriodic -----------------------------
 (* The closed form for periodic input agrees with stepping byte by byte.   *)
 EXTENDS Generator
-Pats == {<<7>>, <<164, 14>>, <<1, 2, 3>>, <<0, 255, 0, 9>>, <<65, 66, 67, 68, 69>>}
+Pats == {<<7>>, <<164, 14>>, <<1, 2, 3>>, <<0, 255, 0, 9>>, <<65, 66, 67, 68, 69>>,
+         <<12, 200, 33, 41, 250, 6, 77, 190, 3, 118, 91>>}
 Agree(v, pat, pre, k) ==
     LET g0 == GenUpdate(v, GenNew(v), PeriodicData(pat, 0, pre)) IN
     GenUpdatePeriodic(v, g0, pat, pre, k) = GenUpdate(v, g0, PeriodicData(pat, pre, k))
 ASSUME \A v \in {VShort, VNormal, VLong} : \A pat \in Pats : \A pre \in {0, 1, 3, 4, 5, 9} :
            \A k \in {0, 1, 3, 16, 17, 18, 21, 40, 300, 777} : Agree(v, pat, pre, k)
 ASSUME \A pat \in Pats : Agree(VNormalLC, pat, 2, 50)        \* three-byte checksums fall back to stepping
+\* the wide closed form agrees with the narrow one (and hence with stepping)
+AgreeW(v, pat, pre, k) ==
+    LET g0 == GenUpdate(v, GenNew(v), PeriodicData(pat, 0, pre)) IN
+    GenUpdatePeriodicWide(v, g0, pat, WOfNat(pre), WOfNat(k), <<>>) = GenUpdate(v, g0, PeriodicData(pat, pre, k))
+ASSUME \A v \in {VShort, VNormal, VLong} : \A pat \in Pats : \A pre \in {4, 5, 9, 11} :
+           \A k \in {0, 1, 3, 4, 5, 21, 300, 777} : PeriodicPreW(v, GenUpdate(v, GenNew(v), PeriodicData(pat, 0, pre)), pat, WOfNat(pre))
+                                                     /\ AgreeW(v, pat, pre, k)
 VARIABLE x
 Init == x = 0
 Next == UNCHANGED x
